@@ -79,6 +79,11 @@ where
     }
 
     #[inline(always)]
+    pub(crate) fn mark_completed(&self) {
+        self.completed.store(true, atomic::Ordering::SeqCst);
+    }
+
+    #[inline(always)]
     pub(crate) fn progress_yielded_counter(&self, num_yielded: usize) -> usize {
         self.yielded_counter.fetch_and_add(num_yielded)
     }
@@ -181,9 +186,13 @@ where
                 .collect::<Vec<_>>();
             std::mem::forget(guard);
 
+            if buffer.len() < n {
+                // the wrapped iterator has returned None; it must not be polled again
+                self.completed.store(true, atomic::Ordering::SeqCst);
+            }
+
             match buffer.len() {
                 0 => {
-                    self.completed.store(true, atomic::Ordering::SeqCst);
                     let older_count = self.progress_yielded_counter(n);
                     assert_eq!(older_count, begin_idx);
                     None
